@@ -7,6 +7,7 @@ Quirk = 0
 MaxEvents = 8
 Lists <- ListsC
 HealthVals = {FALSE}
+BalVals = {0}
 INIT Init
 NEXT Next
 INVARIANT I_ReadyMeansReady
